@@ -17,6 +17,7 @@ heat, Qhvac = 0) but the load is still subtracted from the indoor balance, so th
 step exactly at the cooling set-point whatever the rated capacity is.  The oracles treat the
 system as *inactive* there (Qhvac = 0) and the branch counts report how often it happens.
 """
+import json
 import os
 import sys
 import traceback
@@ -27,6 +28,7 @@ import core
 import fracexec
 import s3_util as S3
 import t3_util as T3
+import u4_util as U4
 from fracexec import frac_str
 
 MODULE = 'UwgVerif.Props.C14'
@@ -208,10 +210,13 @@ def gen_case(rng, mode=None):
     #    aeroCond, T_ext, T_int, flux; Qocc, Nocc, ElecTotal, frac, fl_area, T_wallex, ...) with legal values drawn
     #    from this seed
     c['standinSeed'] = rng.choice([0, rng.randint(1, 10 ** 9), rng.randint(1, 10 ** 9)])
+    #  circ: circumstance of the call that is no input of the step - the Building rendered (repr / str) right before
+    #    the step and right after it (before its results are read), DEBUG logging switched on around the step, both
+    c['circ'] = U4.circ_pick(rng)
     return c
 
 
-STRKEYS = ('cond', 'mode', 'condText', 'condVia', 'copVia', 'refused', 'documented')
+STRKEYS = ('cond', 'mode', 'condText', 'condVia', 'copVia', 'refused', 'documented', 'circ')
 
 
 def edge_cases(rng):
@@ -317,8 +322,14 @@ def impl_bem(pkg, c):
     parameter = NS(lv=c['lv'], cp=c['cp'], nightSetStart=c['nightSetStart'],
                    nightSetEnd=c['nightSetEnd'])
     simTime = NS(secDay=c['secDay'], dt=c['dt'], month=1, day=1)
+    circ = c.get('circ', '')
+    if U4.rendered(circ):
+        U4.observe(b)
     try:
-        b.BEMCalc(UCM, BEM, forc, parameter, simTime)
+        with U4.under(circ):
+            b.BEMCalc(UCM, BEM, forc, parameter, simTime)
+        if U4.rendered(circ):
+            U4.observe(b)
     except (ZeroDivisionError, ValueError) as e:
         tb = traceback.extract_tb(sys.exc_info()[2])
         if tb and tb[-1].name in ('psychrometrics', 'saturation_pressure', 'log'):
@@ -444,7 +455,8 @@ def oracle(c, r, tol=None):
                 c['cond'], float(hv), ' + compressor work' if c['cond'] == 'AIR' else '',
                 float(want))
     elif heating:
-        if not eq(hv, r['heatConsump'] * nF - r['Qheat'], scale):
+        # (floats: fuel - delivered cancels; the tolerance is relative to the two terms, not to their difference)
+        if not eq(hv, r['heatConsump'] * nF - r['Qheat'], max(scale, abs(r['heatConsump'] * nF), abs(r['Qheat']))):
             return 'heating waste heat %s != fuel - delivered %s' % (
                 float(hv), float(r['heatConsump'] * nF - r['Qheat']))
     elif not eq(hv, 0 * hv, scale):
@@ -653,6 +665,268 @@ def live_runs(chk, runs, ndays, on_bem=None, extra_wrappers=None):
     return done
 
 
+# ------------------------------------------------------------------------------ circumstances (round 4)
+DEFAULT_HEAT_CAP = 999.0        # documented default of a Building that was not given a heating capacity
+
+
+def typed_capacities(bdict):
+    """what a building DICTIONARY says about the capacities: numbers as typed (int or float), heat_cap optional
+    (absent or null -> the documented default 999 W/m2)"""
+    hc = bdict.get('heat_cap')
+    return {'heatCap': DEFAULT_HEAT_CAP if hc is None else float(hc), 'coolcap': float(bdict['coolcap'])}
+
+
+def u4_install(sink, ctx):
+    """C14 oracle around every BEMCalc call, for harness/u4_util; for archetypes that came from a dictionary the
+    statement is evaluated a second time with the capacities AS TYPED in that dictionary"""
+    core.repo_python_path()
+    import uwg.building as bmod
+    orig = bmod.Building.BEMCalc
+
+    def wrapped(self, UCM, BEM, forc, parameter, simTime):
+        c = state_of_building(self, UCM, BEM, forc, parameter, simTime)
+        orig(self, UCM, BEM, forc, parameter, simTime)
+        r = {k: getattr(self, k) for k in OUT if hasattr(self, k)}
+        sink('BEMCalc:' + classify_float(c, r), oracle(c, r, tol=1e-9))
+        typed = ctx.get('typed', {}).get(id(self))
+        if typed:
+            c2 = dict(c, **typed['caps'])
+            msg = oracle(c2, r, tol=1e-9)
+            if msg:
+                msg = 'archetype %s: %s [capacities as typed in its building dictionary: heat_cap %s -> %r W/m2, ' \
+                      'coolcap %r W/m2; in force on the object: heat_cap %r, coolcap %r; %r floors]' % (
+                          typed['name'], msg, typed['text'], typed['caps']['heatCap'], typed['caps']['coolcap'],
+                          c['heatCap'], c['coolcap'], r.get('nFloor'))
+            sink('BEMCalc(capacities as typed):' + classify_float(c2, r), msg)
+    bmod.Building.BEMCalc = wrapped
+
+    def undo():
+        bmod.Building.BEMCalc = orig
+    return undo
+
+
+def u4_after_generate(m, spec, sink, ctx):
+    """which simulated Building came from which dictionary; its capacities are the typed ones"""
+    ctx['typed'] = {}
+    if m.autosize:
+        return
+    for d in spec['model'].get('ref_bem_vector') or []:
+        for bem in m.BEM:
+            if (bem.bldtype, bem.builtera) == (d['bldtype'], d['builtera']):
+                caps = typed_capacities(d['building'])
+                text = json.dumps(d['building'].get('heat_cap')) if 'heat_cap' in d['building'] else 'key absent'
+                ctx['typed'][id(bem.building)] = {'caps': caps, 'name': '%s/%s' % (bem.bldtype, bem.builtera), 'text': text}
+                b = bem.building
+                msg = None
+                if b.heat_cap != caps['heatCap'] or b.coolcap != caps['coolcap']:
+                    msg = 'after generate() the archetype %s/%s has heat_cap %r, coolcap %r; its dictionary says ' \
+                          'heat_cap %s (-> %r), coolcap %r' % (bem.bldtype, bem.builtera, b.heat_cap, b.coolcap, text,
+                                                                caps['heatCap'], caps['coolcap'])
+                sink('generate:capacities-as-typed', msg)
+
+
+U4_HOOKS = U4.Hooks(install=u4_install, after_generate=u4_after_generate,
+                    kernels=[('uwg.building', 'Building', 'BEMCalc', (1, 3, 4, 5))])
+
+
+def hand_edited_customs(u, rng):
+    """custom reference buildings as a user writes them into a JSON model file: numbers typed without a decimal
+    point where they are whole, the optional heat_cap key typed / typed as null / left out"""
+    a, asch = U4.custom_dicts(u, S3, condtype='air', cop=3.0, coolcap=90.0, bldtype='studio', builtera='new')
+    a['building'].update(heat_cap=30, floor_height=3, cop=3, coolcap=90, u_value=5, initial_temp=293, heateff=1,
+                         int_heat_night=1, int_heat_day=2)
+    b, bsch = U4.custom_dicts(u, S3, condtype='WATER', cop=4.5, coolcap=45.0, bldtype='lab', builtera='pst80')
+    b['building'].pop('heat_cap', None)                       # the documented format: no heat_cap key
+    c, csch = U4.custom_dicts(u, S3, condtype='Air', cop=2.5, coolcap=25.0, bldtype='depot', builtera='pre80')
+    c['building']['heat_cap'] = None                          # null
+    c['building'].update(coolcap=25, infil=1, vent=0)
+    return [(a, asch), (b, bsch), (c, csch)]
+
+
+def circumstance_ties(chk, quick):
+    core.repo_python_path()
+    import uwg as u
+    work = chk.work()
+    par_t, epw_t = U4.toronto()
+    customs = hand_edited_customs(u, chk.rng)
+    stock = [('studio', 'new', 0.3), ('lab', 'pst80', 0.3), ('depot', 'pre80', 0.2), ('largeoffice', 'pst80', 0.2)]
+    about = {'custom archetypes (building dictionaries as typed)': {
+        '%s/%s' % (b['bldtype'], b['builtera']): {k: b['building'].get(k, '<key absent>') for k in
+                                                  ('heat_cap', 'coolcap', 'cop', 'floor_height', 'heateff')}
+        for b, _ in customs}}
+    scen = [U4.make_spec('toronto 10 Jan, zone 5A: three hand-edited custom archetypes (heat_cap typed as 30 / key '
+                         'absent / null) + largeoffice', epw=epw_t, param=par_t, customs=customs, about=about, month=1,
+                         day=10, nday=1, dtsim=300, zone='5A', bld=stock),
+            U4.make_spec('singapore 1 Jul: the same custom archetypes (coolcap typed as 90 / 45.0 / 25)', customs=customs,
+                         about=about, month=7, day=2, nday=1, dtsim=300, bld=stock)]
+    if not quick:
+        scen += [U4.make_spec('toronto 1 Apr, zone 5A, customs, 2 days', epw=epw_t, param=par_t, customs=customs,
+                              about=about, month=4, day=1, nday=2, dtsim=300, zone='5A', bld=stock),
+                 U4.make_spec('singapore 1 Jan, shipped stock, autosize', month=1, day=1, nday=1, dtsim=300, autosize=1)]
+    counts, nbad, plains = U4.live_battery(
+        chk, 'C14', U4_HOOKS, scen, U4.others_default(work), 'C14 oracle on live runs',
+        full=1 if quick else len(scen), required=('BEMCalc:',))
+    cold = plains[scen[0]['label']]['evaluations']
+    if 'generate:capacities-as-typed' not in cold or \
+            not any(k.startswith('BEMCalc(capacities as typed):heat-limited') for k in cold) or \
+            not any(k.startswith('BEMCalc(capacities as typed):heat-unlimited') for k in cold):
+        raise core.Infra('the cold scenario no longer heats custom archetypes both at and below their typed capacity: %s'
+                         % sorted(cold))
+    chk.direct('C14-circumstances(live runs: observers, logging, -O, CLI / JSON route, other models, caller data)',
+               sum(counts.values()), len(scen),
+               'oracle = the C14 statement (1e-9 relative) at every BEMCalc call, and for every archetype that came '
+               'from a building DICTIONARY a second time with the capacities as typed there (heat_cap typed as an int, '
+               'left out, null -> documented default 999 W/m2; coolcap as int / float): delivery <= typed capacity, '
+               'set-point reached below it; after generate() the archetype carries the typed capacities. Scenarios: '
+               '%s. %s' % ('; '.join(s_['label'] for s_ in scen), U4.BATTERY_RULE), mismatches=nbad, branches=counts)
+    dict_route_tie(chk, u, quick)
+
+
+NUM_KEYS = ['floor_height', 'int_heat_night', 'int_heat_day', 'int_heat_frad', 'int_heat_flat', 'infil', 'vent',
+            'glazing_ratio', 'u_value', 'shgc', 'cop', 'coolcap', 'heateff', 'initial_temp']
+CASE_OF_KEY = {'floor_height': 'floorHeight', 'int_heat_night': 'intHeatNight', 'int_heat_day': 'intHeatDay',
+               'int_heat_frad': 'intHeatFRad', 'int_heat_flat': 'intHeatFLat', 'infil': 'infil', 'vent': 'vent',
+               'glazing_ratio': 'glazingRatio', 'u_value': 'uValue', 'shgc': 'shgc', 'cop': 'copAdj',
+               'coolcap': 'coolcap', 'heateff': 'heateff'}
+WHOLE = {'floorHeight': (3, 5), 'intHeatNight': (0, 6), 'intHeatDay': (0, 9), 'infil': (0, 2), 'vent': (0, 0),
+         'uValue': (1, 6), 'copAdj': (2, 6), 'coolcap': (1, 300), 'heateff': (1, 1), 'heatCap': (1, 400),
+         'glazingRatio': (0, 1), 'shgc': (0, 1), 'intHeatFRad': (0, 1), 'intHeatFLat': (0, 1)}
+
+
+def float_bemcalc(b, c):
+    """one BEMCalc step (doubles) of a real Building in the environment of case `c`; -> attribute values or text"""
+    NS = types.SimpleNamespace
+    fl = {k: (float(v) if isinstance(v, (F, int)) and not isinstance(v, bool) else v) for k, v in c.items()}
+    b.cool_setpoint_day, b.cool_setpoint_night = fl['coolSetDay'], fl['coolSetNight']
+    b.heat_setpoint_day, b.heat_setpoint_night = fl['heatSetDay'], fl['heatSetNight']
+    b.indoor_temp, b.indoor_hum = fl['indoorTemp'], fl['indoorHum']
+    b.int_heat_f_rad = fl['intHeatFRad']
+    b.latWaste = fl['latWaste0']
+    UCM = NS(bldHeight=fl['bldHeight'], verToHor=fl['verToHor'], bldDensity=fl['bldDensity'], canTemp=fl['canTemp'],
+             canHum=fl['canHum'])
+    BEM = NS(wall=NS(layerTemp=[fl['tWall'] + 7, fl['tWall']], solRec=fl['solRec']),
+             roof=NS(layerTemp=[fl['tCeil'] - 5, fl['tCeil']]), mass=NS(layerTemp=[fl['tMass'], fl['tMass'] + 3]),
+             swh=fl['swh'], elec=fl['elec'], light=fl['light'], gas=fl['gas'])
+    try:
+        b.BEMCalc(UCM, BEM, NS(pres=fl['pres'], waterTemp=fl['waterTemp']),
+                  NS(lv=fl['lv'], cp=fl['cp'], nightSetStart=fl['nightSetStart'], nightSetEnd=fl['nightSetEnd']),
+                  NS(secDay=fl['secDay'], dt=fl['dt'], month=1, day=1))
+    except Exception as e:  # noqa: BLE001 - fail-stop of the step is not this tie's subject
+        return 'raises %s' % type(e).__name__
+    return {k: getattr(b, k) for k in OUT}
+
+
+def dict_route_tie(chk, u, quick):
+    """The dictionary / JSON route of a Building, as a family: one long sequence of `Building.from_dict` /
+    `BEMDef.from_dict` calls in ONE process. Each dictionary is a generated C14 state whose building part is written
+    the way people and json.load write numbers (every numeric key as float, or as int where the number is whole),
+    with the optional key heat_cap typed as float / typed as int / null / absent, keys in any order, with or without
+    the JSON round trip. Demanded of every object, whatever was deserialised before it:
+      * every attribute in force equals the number typed (heat_cap: the typed number, else the default 999);
+      * one real BEMCalc step (doubles) obeys the C14 statement with the capacities AS TYPED;
+      * the caller's dictionary is left as it was; to_dict() hands out data that are not the object's own;
+      * the class-level data of the package keep their digest."""
+    import json as _json
+    rng = chk.rng
+    import generic as G
+    dig0 = G.class_level_digest()
+    bem_tpl, _sch = U4.custom_dicts(u, S3)
+    n = 240 if quick else 2400
+    counts, bad = {}, []
+    prev = prev_kind = 'none'
+    for i in range(n):
+        c = gen_case(rng, rng.choice(['heat', 'heat-lim', 'heat-lim', 'cool', 'cool-lim', 'idle', 'any']))
+        whole = rng.random() < 0.6
+        if whole:
+            for k, (lo, hi) in WHOLE.items():
+                if rng.random() < 0.6:
+                    c[k] = F(rng.randint(lo, hi))
+        hc_kind = rng.choice(['float', 'int', 'absent', 'null', 'int', 'absent'])
+        if hc_kind == 'int':
+            c['heatCap'] = F(rng.randint(1, 400) if c['mode'] != 'heat' else rng.randint(300, 900))
+        d = {'type': 'Building', 'condtype': c['condText'], 'initial_temp': 293}
+        for key, ck in CASE_OF_KEY.items():
+            v = c[ck]
+            d[key] = int(v) if (v.denominator == 1 and rng.random() < 0.8) else float(v)
+        if hc_kind in ('float', 'int'):
+            d['heat_cap'] = int(c['heatCap']) if hc_kind == 'int' else float(c['heatCap'])
+        elif hc_kind == 'null':
+            d['heat_cap'] = None
+        if hc_kind in ('absent', 'null'):
+            c['heatCap'] = F(999)
+        if rng.random() < 0.5:
+            items = list(d.items())
+            rng.shuffle(items)
+            d = dict(items)
+        via_json = rng.random() < 0.5
+        if via_json:
+            d = _json.loads(_json.dumps(d))
+        route = rng.choice(['Building.from_dict', 'Building.from_dict', 'BEMDef.from_dict'])
+        snap = G.snapshot(d)        # (the implementation gets `d`; everything said about the dictionary below uses `snap`)
+        tag = 'heat_cap:%s(after %s)' % (hc_kind, prev_kind)
+        counts[tag] = counts.get(tag, 0) + 1
+        counts['numbers:' + ('some typed as int' if any(isinstance(d[k], int) for k in CASE_OF_KEY) else 'all float')] = \
+            counts.get('numbers:' + ('some typed as int' if any(isinstance(d[k], int) for k in CASE_OF_KEY) else 'all float'), 0) + 1
+        case = {'building dictionary': snap, 'route': route + (' after json.dumps / json.loads' if via_json else ''),
+                'position in the sequence': i, 'heat_cap of the dictionary deserialised just before': prev}
+        try:
+            if route == 'BEMDef.from_dict':
+                bd = G.snapshot(bem_tpl)
+                bd['building'] = d
+                b = u.BEMDef.from_dict(bd).building
+            else:
+                b = u.Building.from_dict(d)
+        except Exception as e:  # noqa: BLE001
+            bad.append((case, 'from_dict raises %s: %s' % (type(e).__name__, str(e)[:120]),
+                        'a legal dictionary is accepted'))
+            prev = prev_kind = hc_kind
+            continue
+        prev = hc_kind if hc_kind in ('absent', 'null') else '%s %s' % (hc_kind, snap['heat_cap'])
+        prev_kind = hc_kind
+        msg = None
+        if not G.plain_equal(d, snap):
+            msg = "from_dict changed the caller's dictionary: %s" % G.where_differs(snap, d)
+        want = dict({k: float(c[ck]) for k, ck in CASE_OF_KEY.items()}, heat_cap=float(c['heatCap']))
+        want['cop_adj'] = want['cop']
+        for k, v in want.items():
+            if msg is None and getattr(b, k) != v:
+                msg = 'attribute %s of the object is %r; the dictionary says %s' % (
+                    k, getattr(b, k), _json.dumps(snap.get(k, None)) if k in snap else
+                    ('nothing (key absent): documented default %r' % v))
+        if msg is None:
+            r = float_bemcalc(b, c)
+            if isinstance(r, dict):
+                cf = {k: (float(v) if isinstance(v, F) else v) for k, v in c.items()}
+                cls_ = classify_float(cf, r)
+                counts['step:' + cls_] = counts.get('step:' + cls_, 0) + 1
+                msg = oracle(cf, r, tol=1e-9)
+                if msg:
+                    msg += ' [capacities as typed in the dictionary: heat_cap %s, coolcap %s; %r floors]' % (
+                        _json.dumps(snap['heat_cap']) if 'heat_cap' in snap else 'key absent (default 999)',
+                        _json.dumps(snap['coolcap']), r['nFloor'])
+        if msg is None:
+            out = b.to_dict()
+            keep = G.snapshot(out)
+            for k in list(out):
+                out[k] = -1
+            if not G.plain_equal(b.to_dict(), keep):
+                msg = 'editing the dictionary handed out by to_dict() changed the object: %s' % G.where_differs(keep, b.to_dict())
+        if msg:
+            bad.append((case, msg, 'the object is the building the dictionary describes, whatever was read before it'))
+    if G.class_level_digest() != dig0:
+        bad.append(({'sequence': '%d from_dict / to_dict / BEMCalc calls' % n},
+                    'the digest of the class-level data of the package changed', 'class-level data are constants'))
+    for case, msg, exp in bad[:3]:
+        chk.violation('impl-violation', 'C14 on buildings read from dictionaries (JSON route), sequence in one process',
+                      case=case, observed=msg, expected=exp)
+    chk.direct('C14-dictionary-route(Building / BEMDef.from_dict sequences in one process)', n, n,
+               dict_route_tie.__doc__.split('\n\n')[0].replace('\n', ' ') + ' Demanded of every object whatever was '
+               'deserialised before it: attributes in force = numbers typed (heat_cap: typed number, else 999); one '
+               'real float BEMCalc step obeys C14 with the capacities as typed; the caller\'s dictionary unchanged; '
+               'to_dict() data not live; class-level digest unchanged. branches: heat_cap form x form of the '
+               'previous dictionary; int-typed numbers; branch of the step', mismatches=len(bad), branches=counts)
+
+
 def run(chk):
     chk.proof(MODULE, THEOREMS)
     if chk.tier == 'thorough':
@@ -681,7 +955,9 @@ def run(chk):
              'non-default values of the documented attributes that are no input of the model (canyon_fraction in '
              '[0,1], msys, FanMax, area_floor, RadF*, Twb, Tdp, copAdj, initial_temp, stale outputs of a previous '
              'step), and in two cases of three the wall / roof / mass / BEMDef stand-ins carry every attribute Element '
-             'and BEMDef document; non-trivial = non-error result; '
+             'and BEMDef document; in three cases of five the call happens under a circumstance (the Building '
+             'rendered with repr / str right before the step and again before its results are read; DEBUG logging on '
+             'around the step; both); non-trivial = non-error result; '
              'branches = branch measured on the implementation result; %d cases skipped because '
              'psychrometrics raised' % (', '.join(OUT), skipped),
         classify=lambda line, impl: cls[line])
@@ -805,6 +1081,7 @@ def run(chk):
                  '(every 12th per branch), doubles taken as exact rationals, run through the '
                  'fractionised real code and the Lean model; exact equality as above',
             classify=lambda line, impl: cl2[line])
+    circumstance_ties(chk, chk.tier == 'quick')
     chk.assumptions.append(
         'C14: BEMCalc is exercised through fracexec (exact rationals); psychrometrics '
         '(indoorRhum) is an uninterpreted parameter of the model and not compared; '
@@ -855,6 +1132,13 @@ def replay(chk, path):
     """bin/check C14 --replay <file>: re-run one recorded state against the working tree."""
     import json
     v = json.load(open(path))
+    if isinstance(v.get('case'), dict) and ('scenario' in v['case'] or 'building dictionary' in v['case']):
+        # a finding of the circumstance ties: the scenarios derive from the seed, re-run them
+        core.repo_python_path()
+        circumstance_ties(chk, chk.tier == 'quick')
+        for x in chk.violations[:3]:
+            print('observed:', str(x['observed'])[:600])
+        return 1 if chk.violations else 0
     c = {k: (x if k in STRKEYS else F(x)) for k, x in v['case'].items()}
     pkg = fracexec.load()
     r = impl_bem(pkg, c)
